@@ -136,26 +136,39 @@ fn matrix(rows: &[Vec<f64>]) -> DenseMatrix<f64> {
     DenseMatrix::from_2d_vec(&rows.to_vec())
 }
 
-/// projections shared by SvcFit and SvrFit; returns (out-object, qok)
-fn project(fit: &Fitted, _k: &Value, with_pred: bool, ntrain: usize) -> Value {
-    let q10 = Q::with_limit(S, 1.0e9);
-    let q16 = Q::with_limit(T, 1.0e9);
+/// IEEE-754 pattern of a double as four 16-bit quarters, most significant first
+/// (TLC integers are 32-bit signed, so the customary two 32-bit halves do not fit)
+fn bits4(v: f64) -> Value {
+    let b = v.to_bits();
+    json!([(b >> 48) as i64, ((b >> 32) & 0xffff) as i64, ((b >> 16) & 0xffff) as i64, (b & 0xffff) as i64])
+}
+
+/// projections shared by SvcFit and SvrFit.  Flags: `finite` (no NaN / inf anywhere in the
+/// model or its outputs), `wok` (the quantised coefficients fit 32 bits), `fok` (the quantised
+/// bias / decision values / logged kernel values fit 32 bits)
+fn project(fit: &Fitted, with_pred: bool, ntrain: usize) -> Value {
+    let qw10 = Q::with_limit(S, 1.0e9);
+    let qw16 = Q::with_limit(T, 1.0e9);
+    let qf10 = Q::with_limit(S, 1.0e9);
+    let qf16 = Q::with_limit(T, 1.0e9);
     let svint = fit.inst.iter().all(|r| intv(r).is_some());
     let sv: Vec<Vec<i64>> = fit
         .inst
         .iter()
         .map(|r| r.iter().map(|&x| int_exact(x).unwrap_or(0)).collect())
         .collect();
-    let w16 = q16.v(&fit.w);
-    let w10 = q10.v(&fit.w);
-    let b10 = q10.x(fit.b);
-    let f10 = q10.v(&fit.f);
-    let f16 = q16.v(&fit.f[..ntrain.min(fit.f.len())]);
+    let w16 = qw16.v(&fit.w);
+    let w10 = qw10.v(&fit.w);
+    let b10 = qf10.x(fit.b);
+    let f10 = qf10.v(&fit.f);
+    let f16 = qf16.v(&fit.f[..ntrain.min(fit.f.len())]);
     let fs: Vec<i64> = fit.f.iter().map(|&v| sign(v)).collect();
-    let kq = q10.m(&fit.kq);
-    let qok = q10.ok() && q16.ok();
+    let kq = qf10.m(&fit.kq);
+    let finite = qw10.finite.get() && qw16.finite.get() && qf10.finite.get() && qf16.finite.get();
+    let wok = qw10.inrange.get() && qw16.inrange.get();
+    let fok = qf10.inrange.get() && qf16.inrange.get();
     let mut o = json!({"left": fit.left, "sv": sv, "svint": svint, "w16": w16, "w10": w10, "b10": b10,
-                       "f10": f10, "f16": f16, "kq": kq, "qok": qok});
+                       "f10": f10, "f16": f16, "kq": kq, "finite": finite, "wok": wok, "fok": fok});
     if with_pred {
         let predint = intv(&fit.pred).is_some();
         let pred: Vec<i64> = fit.pred.iter().map(|&x| int_exact(x).unwrap_or(0)).collect();
@@ -258,7 +271,7 @@ fn svc_event(run: i64, src: &str, inp: Value) -> Value {
         Some(Err(_)) => ("panic", json!({})),
         Some(Ok(f)) if f.err.is_some() => ("err", json!({})),
         Some(Ok(f)) => {
-            let mut o = project(&f, &kd, true, n);
+            let mut o = project(&f, true, n);
             let pk = prod_ok(&o, &kd, &pts);
             o["prodok"] = json!(pk);
             ("ok", o)
@@ -312,7 +325,7 @@ fn svr_event(run: i64, src: &str, inp: Value) -> Value {
         Some(Err(_)) => ("panic", json!({})),
         Some(Ok(f)) if f.err.is_some() => ("err", json!({})),
         Some(Ok(f)) => {
-            let mut o = project(&f, &kd, false, n);
+            let mut o = project(&f, false, n);
             let pk = prod_ok(&o, &kd, &pts);
             o["prodok"] = json!(pk);
             ("ok", o)
@@ -338,7 +351,7 @@ fn k_event(run: i64, inp: Value) -> Value {
         Ok((a, b, d)) => {
             let q = Q::with_limit(sc, 1.0e9);
             let out = json!({"v": q.x(a), "isint": int_exact(a).is_some(), "vint": int_exact(a).unwrap_or(0),
-                             "bxz": bits64(a), "bzx": bits64(b), "bxx": bits64(d), "sgn": sign(a), "qok": q.ok()});
+                             "bxz": bits4(a), "bzx": bits4(b), "bxx": bits4(d), "sgn": sign(a), "qok": q.ok()});
             json!({"run": run, "ev": "K", "status": "ok", "in": inp, "out": out})
         }
     }
@@ -649,8 +662,8 @@ fn gen_kernel(out: &mut Out) {
         (kdesc("poly", 1, 1, 1, -1, 1), 10),
         (kdesc("rbf", 1, 1, 8, 0, 1), 14),
         (kdesc("rbf", 1, 1, 2, 0, 1), 14),
-        (kdesc("sigmoid", 1, 1, 8, 1, 2), 14),
-        (kdesc("sigmoid", 1, 1, 4, -1, 1), 14),
+        (kdesc("sigmoid", 1, 1, 8, 1, 2), 10),
+        (kdesc("sigmoid", 1, 1, 4, -1, 1), 10),
     ];
     let vs = all_vectors(2, 2);
     for (k, sc) in ktab.iter() {
@@ -676,7 +689,7 @@ fn gen_kernel(out: &mut Out) {
                         *[1i64, 2].choose(&mut r).unwrap()), 6),
             2 => (kdesc("rbf", 1, 1, *[4i64, 8, 16, 32].choose(&mut r).unwrap(), 0, 1), 14),
             _ => (kdesc("sigmoid", 1, 1, *[8i64, 16, 32].choose(&mut r).unwrap(),
-                        *[-1i64, 0, 1].choose(&mut r).unwrap(), *[1i64, 2].choose(&mut r).unwrap()), 14),
+                        *[-1i64, 0, 1].choose(&mut r).unwrap(), *[1i64, 2].choose(&mut r).unwrap()), 10),
         };
         run += 1;
         out.emit(k_event(run, json!({"kernel": k, "x": x, "z": z, "S": sc})));
@@ -712,7 +725,8 @@ fn gen_kernel(out: &mut Out) {
             kdesc("sigmoid", 1, 1, *[16i64, 32, 64].choose(&mut r).unwrap(), 0, 1)
         };
         run += 1;
-        out.emit(gram_event(run, json!({"kernel": k, "X": x, "S": 12})));
+        let sc = if it % 2 == 0 { 12 } else { 9 };
+        out.emit(gram_event(run, json!({"kernel": k, "X": x, "S": sc})));
     }
 }
 
